@@ -52,6 +52,7 @@ type PeerConnection struct {
 	signalingState           SignalingState
 	iceConnectionState       atomic.Value // ICEConnectionState
 	connectionState          atomic.Value // PeerConnectionState
+	connectionStateMu        sync.Mutex   // serializes updateConnectionState
 
 	idpLoginURL *string
 
@@ -834,6 +835,11 @@ func (pc *PeerConnection) updateConnectionState(
 	iceConnectionState ICEConnectionState,
 	dtlsTransportState DTLSTransportState,
 ) {
+	// The state is derived, compared and stored in one step: an update racing
+	// with Close must not overwrite "closed" with a state derived before the close.
+	pc.connectionStateMu.Lock()
+	defer pc.connectionStateMu.Unlock()
+
 	connectionState := PeerConnectionStateNew
 	switch {
 	// The RTCPeerConnection object's [[IsClosed]] slot is true.
